@@ -28,6 +28,7 @@ def generate(rng, cfg: Dict) -> Dict:
     queries: List[int] = []
     open_tasks: List[int] = []
     n_ops = c.int(6, 40)
+    n_late = 0
     w_clear = c.pick([0.0, 0.03, 0.08])
     w_tie = c.pick([0.0, 0.08])
     diamond_bias = c.chance(0.3)
@@ -66,7 +67,18 @@ def generate(rng, cfg: Dict) -> Dict:
             mode = c.weighted([("drain", 6), ("take_hold", 1), ("take_drop", 1)])
             ops.append(["requery", q, mode, c.int(0, 3)])
         elif open_tasks:
-            ops.append(["resume", c.pick(open_tasks)])
+            if c.chance(0.3):
+                ops.append(["resume_creating", c.pick(open_tasks), c.pick(["T0", "T1", "T4"])])
+            else:
+                ops.append(["resume", c.pick(open_tasks)])
+        elif c.chance(0.5) and n_late < 2:
+            # a subclass that is DEFINED in the middle of the history
+            n_late += 1
+            late = f"L{n_late}"
+            ops.append(["defclass", late, c.pick(["T0", "T1", "T3"])])
+            ops.append(["create", next_h, late, next_h])
+            live.append(next_h)
+            next_h += 1
         else:
             ops.append(["gc"])
     # histories end with a drained query so that the final state is judged
@@ -89,9 +101,12 @@ def execute(scenario: Dict) -> Dict:
     disturbed = False  # a drop / gc / clear happened before a query
     created_since_query = False
 
-    def judge(qrec, results, started_seq, started_epoch, complete, via):
+    late_classes: Dict[str, type] = {}
+    subclasses = {k: list(v) for k, v in oworld.SUBCLASSES.items()}
+
+    def judge(qrec, results, started_seq, started_epoch, complete, via, must_throughout=False):
         tname = qrec["type"]
-        wanted = set(oworld.SUBCLASSES[tname])
+        wanted = set(subclasses[tname])
         serials = []
         for obj in results:
             if obj is None:
@@ -106,8 +121,11 @@ def execute(scenario: Dict) -> Dict:
             classes = sorted({world.by_serial[s]["cls"] for s in dup})
             verdicts.append(kernel.verdict("C13.duplicate", f"a query over {tname} returned instances {dup} more than once (classes {classes})", structure="diamond" if classes == ["T4"] else "other", **via))
             return
-        if not complete:
+        if not complete and not must_throughout:
             return
+        # complete: everything the program holds that existed when the query started.
+        # resumed to exhaustion: everything that existed when it started and that the program STILL holds (an instance
+        # that was there all along cannot be skipped, whatever else was created or dropped in the meantime)
         must = [rec["serial"] for rec in world.census
                 if rec["cls"] in wanted and not rec["dropped"] and rec["epoch"] == started_epoch == world.epoch and rec["seq"] <= started_seq]
         missing = sorted(set(must) - set(serials))
@@ -155,8 +173,23 @@ def execute(scenario: Dict) -> Dict:
 
     for op in scenario["ops"]:
         kind = op[0]
-        if kind == "create":
-            if op[2] in oworld.HIERARCHY:
+        if kind == "defclass":
+            from dataclasses import dataclass as _dc
+
+            name, base = op[1], op[2]
+            if name not in late_classes and base in oworld.HIERARCHY:
+                cls = _dc(eq=False, repr=False)(type(name, (oworld.HIERARCHY[base],), {}))
+                late_classes[name] = cls
+                import sim.machines.lifecycle_sim as _ls
+
+                _ls.ALL_CLASSES[name] = cls
+                for t, subs in subclasses.items():
+                    if base in subs:
+                        subs.append(name)
+                subclasses[name] = [name]
+                counters.inc("fault.class_defined_late")
+        elif kind == "create":
+            if op[2] in oworld.HIERARCHY or op[2] in late_classes:
                 if world.create(op[1], op[2], op[3]) is not None:
                     created_since_query = True
         elif kind == "drop":
@@ -224,8 +257,31 @@ def execute(scenario: Dict) -> Dict:
                 verdicts.append(kernel.verdict("C13.exception", f"resuming a partially consumed evaluation raised {type(e).__name__}: {e}", structure="exception", **t["via"]))
                 continue
             log.add("resume", op[1], sorted(getattr(r, "serial", -1) for r in t["results"]))
-            # instances created or dropped while the evaluation was open are don't-cares: judge as incomplete
-            judge(queries[op[1]], t["results"], t["seq"], t["epoch"], False, t["via"])
+            # instances created or dropped while the evaluation was open are don't-cares; instances that were there
+            # when it started and are still held now must have been delivered
+            judge(queries[op[1]], t["results"], t["seq"], t["epoch"], False, t["via"], must_throughout=True)
+        elif kind == "resume_creating":
+            # the consumer creates one new instance per result it takes: the enumeration must still end
+            t = tasks.pop(op[1], None)
+            if t is None or op[2] not in oworld.HIERARCHY:
+                counters.inc("ops_skipped")
+                continue
+            counters.inc("fault.creation_during_enumeration")
+            cap = len(world.census) + 30
+            n = 0
+            extra_serial = 5000 + 100 * op[1]
+            try:
+                for r in t["it"]:
+                    t["results"].append(r)
+                    n += 1
+                    world.create(extra_serial + n, op[2], extra_serial + n)
+                    if n > cap:
+                        verdicts.append(kernel.verdict("C13.livelock", f"an evaluation over {queries[op[1]]['type']} does not end while the consumer creates one instance per result taken ({n} results so far, {len(world.census)} instances exist)", structure="livelock", **t["via"]))
+                        break
+            except Exception as e:
+                verdicts.append(kernel.verdict("C13.exception", f"resuming a partially consumed evaluation raised {type(e).__name__}: {e}", structure="exception", **t["via"]))
+                continue
+            judge(queries[op[1]], t["results"], t["seq"], t["epoch"], False, t["via"], must_throughout=not verdicts)
         elif kind == "release":
             held.pop(op[1], None)
         else:
